@@ -131,6 +131,18 @@ func init() {
 		"strconv.ParseFloat":  ext۰strconv۰ParseFloat,
 		"strconv.FormatFloat": ext۰strconv۰FormatFloat,
 		"strconv.Quote":       func(fr *frame, a []value) value { return quoteSym(fr.i, a[0]) },
+		// the message of a NumError about symbolic text is never needed
+		// byte by byte; quoting it would fork ~12 ways per symbolic byte
+		"(*strconv.NumError).Error": func(fr *frame, a []value) value {
+			if p, ok := a[0].(*value); ok && p != nil {
+				if st, ok := (*p).(structure); ok && len(st) == 3 {
+					if _, sym := st[1].(*SymStr); sym {
+						return opaqueStr("message of a strconv.NumError about symbolic text")
+					}
+				}
+			}
+			return runBody{}
+		},
 
 		"unicode/utf8.DecodeRune":         ext۰utf8۰DecodeRune,
 		"unicode/utf8.DecodeRuneInString": ext۰utf8۰DecodeRuneInString,
